@@ -151,7 +151,7 @@ def sub_list_histories(ck, tier):
 
 if __name__ == "__main__":
     common.run_main(lambda: worldcheck.standard_main(
-        "C03", ["C03"], THEOREMS, {"nops": 8}, 150, 6000,
+        "C03", ["C03", "C16Rollback"], THEOREMS, {"nops": 8}, 150, 6000,
         ["as C01 for the solve itself; rand_mode is toggled on scalar fields only (through vsc.raw_mode())",
          "non-random lists edited between calls are generated under C04"],
         RULE + "; plus free-standing calls: 2-4 stand-alone fields, 2-4 calls vsc.randomize(*passed) / vsc.randomize_with(*passed) with "
